@@ -20,8 +20,9 @@ import (
 type exToken struct {
 	str      string
 	declared oidc.TokenType
-	kind     string // description
-	live     bool   // reference model: issued by this provider, of the declared type, live now
+	kind     string    // description
+	live     bool      // reference model: issued by this provider, of the declared type, live now
+	end      time.Time // ID tokens: the instant exp names
 	subject  string
 }
 
@@ -56,10 +57,9 @@ func (tw *tokenWorld) pickExToken(ch *kernel.Chooser) *exToken {
 		t.str, t.declared, t.kind = g.idToken, oidc.IDTokenType, "id"
 		p := world.JWTPayload(g.idToken)
 		exp, _ := p["exp"].(float64)
-		t.live = w.Ledger.IDs[g.idToken] != nil && time.Now().Before(time.Unix(int64(exp), 0))
-		if d := time.Until(time.Unix(int64(exp), 0)); d > -2*time.Second && d < 2*time.Second {
-			return nil // on the boundary the model does not decide
-		}
+		// exact: dead from the instant exp names (a request that is still being served at that instant is not judged)
+		t.end = time.Unix(int64(exp), 0)
+		t.live = w.Ledger.IDs[g.idToken] != nil && time.Now().Before(t.end)
 	case x == 8: // type confusion: a refresh token declared as access token and vice versa
 		if g.refresh == "" {
 			return nil
@@ -158,6 +158,11 @@ func (tw *tokenWorld) exchange(ch *kernel.Chooser) string {
 	}
 	if cc := w.Store.Clients[p.claimedClient()]; cc != nil && !cc.HasGrant(oidc.GrantTypeTokenExchange) {
 		tw.viol("C15", "unregistered-grant", "token-exchange", "%s: client %q is not registered for the grant", desc, cc.ID)
+	}
+	for _, t := range []*exToken{subj, actor} {
+		if t != nil && t.live && !t.end.IsZero() && !time.Now().Before(t.end) {
+			return desc + " (an ID token ended while the request was served: not judged)"
+		}
 	}
 	if !subj.live {
 		tw.viol("C15", "dead-subject", "token-exchange/"+subj.kind, "%s: subject token is not a live token of the declared type", desc)
@@ -300,9 +305,9 @@ func RunC15(t *testing.T, spec kernel.Spec) *kernel.Outcome {
 			switch x := ch.Int(20); {
 			case x < 3:
 				return tw.obtain(ch)
-			case x < 14:
+			case x < 13:
 				return tw.exchange(ch)
-			case x < 15:
+			case x < 14:
 				return tw.revoke(ch)
 			case x < 16:
 				return tw.advance(ch)
